@@ -175,7 +175,7 @@ func runProgram(t *rapid.T, focus string) {
 	if err != nil {
 		t.Fatalf("mkdtemp: %v", err)
 	}
-	defer os.RemoveAll(dir)
+	defer evid.RetireDir(dir)
 	rf := 3
 	if rapid.IntRange(0, 5).Draw(t, "rf5") == 0 {
 		rf = 5
